@@ -19,7 +19,8 @@ EXPLANATION = (
     "position behind a non-empty guard; the program parser ends in demand_eof; (R4) the lexer's "
     "character classes for &O / &H literals are subsets of the domains of the digit converters that "
     "panic outside them (both tabulated over ASCII). (R2) every instantiation of the repetition combinators (ManyParser, ManyCtxParser, DelimitedParser) is enumerated from the types of MIR locals; its element (delimiter) is not optional by its combinator type, otherwise the repetition never sees a soft failure and loops forever. Audited (J2) panic sites whose invariant is of the form `the parser demands X` carry a re-checked witness: the named parser constructor builds no parser that is optional by its combinator type.  (R6) inside a family of mutually recursive tree rewrites no member hands the result of one recursive call to a member that looks inside it again (2^depth)."
-    " (R7 = C13.R12) every declaration looks at all entries of the name before it makes a type, which keeps the name table's clash panic unreachable; the audited panic sites of the sub-call name folding carry a machine-checked witness (guard and worker interpreted on every tree up to depth 4).")
+    " (R7 = C13.R12) every declaration looks at all entries of the name before it makes a type, which keeps the name table's clash panic unreachable; the audited panic sites of the sub-call name folding carry a machine-checked witness (guard and worker interpreted on every tree up to depth 4)."
+    " (R8 = C13.R3) the DEFtype letter table is indexed through one folding index function and a range is written as an index interval.")
 NOT_DECIDED = [
     "absence of arithmetic-overflow panics (debug profile only) and of stack overflow on deep nesting",
     "termination of repetitions whose element is optional for a reason the type does not show (a boxed choice with an optional alternative, a repetition that allows none inside a repetition, recursion through a lazy parser)",
